@@ -390,6 +390,7 @@ var vCorpus = []string{
 	`{"k" : "v\\\"" , "n" : -12.0E+7}`,
 	"[\n\t\"a\" ,\r\n 0.1 ]",
 	`"str"`, `-1.5e+10`, `true`, `false`, `null`, `0`,
+	`[1e+23,4E-10,"a\/b"]`, // exponents of two digits (a mutated digit can become a second sign) and the \/ escape
 }
 
 // VerifC12_Probe: every prefix of every corpus document followed by K
